@@ -2,7 +2,7 @@
    Only statements.  Model: Async/Conn.v.  Proved: the epilogue clause and the reuse clause (Request::close).  The one-call clause over the
    whole loop is decided by the correspondence check + oracle (it is the clause that exposed and now guards
    against finding F3) until its proof completes. *)
-From FV Require Import Base.Bytes Gen.Generated Codec.Header Codec.Bodies Parser.ReqModel Parser.StreamModel Async.Conn Async.ConnWrites Async.ConnLoop Codec.Varint Codec.NV Codec.Vars Parser.ReqWire Parser.ReqTargets Async.ConnTotal Async.ConnReads Async.LoopTargets Async.LoopProofs Async.PeerTargets4 Async.PeerProofs4 Async.LogTargets Async.LogProofs Parser.AbsStream Parser.StreamSpec Parser.StreamFinal Parser.EnvCanon Async.ReadsWTargets Async.PeerTargets Async.PeerTargets2 Async.PeerTargets3 Async.BodyTargets Async.BodyReadsTargets Async.BodyReadsProofs.
+From FV Require Import Base.Bytes Gen.Generated Codec.Header Codec.Bodies Parser.ReqModel Parser.StreamModel Async.Conn Async.ConnWrites Async.ConnLoop Codec.Varint Codec.NV Codec.Vars Parser.ReqWire Parser.ReqTargets Async.ConnTotal Async.ConnReads Async.LoopTargets Async.LoopProofs Async.PeerTargets4 Async.PeerProofs4 Async.LogTargets Async.LogProofs Parser.AbsStream Parser.StreamSpec Parser.StreamFinal Parser.EnvCanon Async.ReadsWTargets Async.PeerTargets Async.PeerTargets2 Async.PeerTargets3 Async.BodyTargets Async.BodyReadsTargets Async.BodyReadsProofs Async.FrameTargets Async.EpilogueTargets Async.EpilogueProofs.
 
 (* Request::close, whenever it ends without an I/O error (reuse, or ConnectionReset because KeepConn was
    not set): after skipping to a record boundary WITHOUT writing anything, it writes exactly the pending
@@ -261,6 +261,76 @@ Theorem C07_reuse_is_invisible :
   a_parsed a = a_parsed a1 /\
   (forall sg : N, In sg (role_input_streams (r_role rq)) -> to_come sg a u = to_come sg a1 u1).
 Proof. exact reuse_is_invisible. Qed.
+
+(* the central clause read off the DECODED transport log: on a transport without write faults, never shut down,
+   for every client, buffer size, fuel and handler scripts that await their reads and write to Stdout / Stderr,
+   every handler invocation whose close completed owns a stretch of the log that decodes completely into
+   records (the log at handler start, what the handler phase appended, what close appended: each whole), in
+   which EXACTLY ONE record is an EndRequest with the request's id - the LAST one, carrying the invocation's
+   status (the handler's own, or ABORT for the client's abort), directly preceded (when the request had become
+   writeable) by the empty Stdout and Stderr records of that id; everything before it is handler output and
+   management replies *)
+Theorem C07_epilogue_records :
+  forall (norm : bytes -> bytes) (maxc : N) (fuel : nat) (B : N) (scripts : list (list N)) (w0 : world),
+  B < SIZE_LIMIT - 8 ->
+  world_ok w0 ->
+  wlog w0 = [] ->
+  no_fault (wscript w0) ->
+  stop_at w0 = 0 ->
+  stopped w0 = false ->
+  scripts_ok false scripts ->
+  Forall writes_std scripts ->
+  Forall no_abandoned_read scripts ->
+  let
+  '(_, _, l) := run_loop_log norm maxc fuel (new_parser B) scripts 0 w0 [] in
+   Forall
+     (fun s : served =>
+      match sv_closed s with
+      | Some L2 =>
+          let id := r_id (sv_req s) in
+          exists (H C : list N) (app0 ps : N),
+            sv_ret s = sv_start s ++ H /\
+            L2 = sv_ret s ++ C /\
+            whole (sv_start s) /\
+            whole H /\
+            whole C /\
+            Forall (fun r : seg => ~ is_end_of id r) (decode H) /\
+            answered_with s app0 ps /\
+            (exists replies : list seg,
+               Forall (fun r : seg => ~ is_end_of id r) replies /\
+               decode C =
+               replies ++
+               (if sv_gate s then [(RT_Stdout, id, []); (RT_Stderr, id, [])] else []) ++
+               [(RT_EndRequest, id, end_encode app0 ps)])
+      | None => True
+      end) l.
+Proof. exact epilogue_records. Qed.
+
+(* non-vacuity: the run of Async/PeerProofs2.ex2 - one closed invocation whose handler phase decodes into a
+   GetValuesResult and a Stdout record and whose close decodes into empty Stdout, empty Stderr, EndRequest *)
+Theorem C07_epilogue_records_example :
+  let
+  '(o, _, l) := exl_run in
+   o = ORet /\
+   match l with
+   | [] => False
+   | [s] =>
+       let H := exl_reply ++ stream_records RT_Stdout 1 [104; 105] in
+       let C :=
+         hdr_encode RT_Stdout 1 0 0 ++
+         hdr_encode RT_Stderr 1 0 0 ++ end_record EXIT_SUCCESS_CODE PS_RequestComplete 1 in
+       r_id (sv_req s) = 1 /\
+       sv_start s = [] /\
+       sv_ret s = sv_start s ++ H /\
+       sv_closed s = Some (sv_ret s ++ C) /\
+       sv_gate s = true /\
+       decode H = [(RT_GetValuesResult, 0, take 18 (drop 8 exl_reply)); (RT_Stdout, 1, [104; 105])] /\
+       decode C =
+       [(RT_Stdout, 1, []); (RT_Stderr, 1, []);
+        (RT_EndRequest, 1, end_encode EXIT_SUCCESS_CODE PS_RequestComplete)]
+   | s :: _ :: _ => False
+   end.
+Proof. exact epilogue_records_ex. Qed.
 
 (* non-vacuity of C07_handler_sees_exactly_the_request: a concrete connection (B = 160, a GetValues junk record inside
    the preamble, leftover = 5 bytes, two client segments, Pending reads and writes) satisfies every hypothesis *)
